@@ -106,7 +106,7 @@ pub fn run_c06(cfg: &Cfg) -> Report {
          63/64, 4095/4096 (and 2^20 in thorough) body-size boundaries, singly and nested; distinct = distinct (constructor set, depth, size) shapes and distinct byte streams",
     );
     rep.assume("method invocations use reserved names CALn whose arity n the parser is told; operands are parsed as generic TermArgs (neither crate nor oracle type them)");
-    let n = cfg.scaled(if thorough { 1_500_000 } else { 200_000 });
+    let n = cfg.scaled(if thorough { 12_000_000 } else { 200_000 });
     let (max_depth, max_nodes) = if thorough { (14usize, 5000i64) } else { (8, 200) };
     rep.merge(par_cases(cfg, "aml.random", n, |cx| {
         let mut r = cx.rng.clone();
@@ -189,7 +189,7 @@ pub fn run_c06(cfg: &Cfg) -> Report {
 /// C14, AML half: every generated object through all six sinks, twice.
 pub fn run_c14_aml(cfg: &Cfg) -> Report {
     let thorough = cfg.tier == Tier::Thorough;
-    let n = cfg.scaled(if thorough { 300_000 } else { 12_000 });
+    let n = cfg.scaled(if thorough { 1_000_000 } else { 12_000 });
     let mut rep = par_cases(cfg, "aml.sinks", n, |cx| {
         let mut r = cx.rng.clone();
         let depth = 1 + r.usize_below(6);
@@ -366,7 +366,7 @@ pub fn run_c15(cfg: &Cfg) -> Report {
         }
     }));
     // 2. generated child / element lists
-    let n = cfg.scaled(if thorough { 400_000 } else { 60_000 });
+    let n = cfg.scaled(if thorough { 2_000_000 } else { 60_000 });
     rep.merge(par_cases(cfg, "alt.lists", n, |cx| {
         let mut r = cx.rng.clone();
         let count = match r.below(12) {
